@@ -161,6 +161,8 @@ def run(pid, tier, seed):
             grp["seglong"] = 12
             groups.append((c8, gen_core.gen_seg_reuse(seed, 10 if q else 150, common.slot_tags(c8)), "segreuse", None))
             grp["segreuse"] = 4
+            groups.append((c8, gen_core.gen_seg_pair(seed, 10 if q else 200, common.slot_tags(c8)), "segpair", None))
+            grp["segpair"] = 4
         specs = {}
         if pid == "C15":
             # a node that is removed from the topology while a request is in flight on it (the node stays silent)
